@@ -27,6 +27,8 @@ NAMES = {
           "or a tower whose proof is stored is not shown misbehaving (e.g. after a restart)",
     1406: "a request reached a tower after its misbehaviour proof was stored",
     1407: "the plugin stopped answering (crashed or wedged handler)",
+    1408: "a stored misbehaviour proof is not self-consistent: the receipt stored for (tower, proof.locator) does not recover to "
+          "proof.recovered_id, a key other than the tower's (the persisted proof proves nothing)",
     1301: "two retry loops for one tower (duplicate sends of one locator within 200 ms)",
     1302: "requests flood a failing tower (no back-off)",
     1303: "pending data not delivered / tower not shown reachable within max-retry + auto-retry + slack after recovery "
@@ -195,7 +197,8 @@ def drive(ctx, path, label):
 def replay_cases(ctx, plugin, cases, tag):
     """re-run scenarios on the implementation; returns the driver's FAIL lines"""
     cf = os.path.join(ctx.work, f"replay-{tag}.txt")
-    open(cf, "w").write("\n".join(cases) + "\n")
+    # (family 27 depends on the order in which the plugin's HashMap yields the towers, random per process: several runs of the case)
+    open(cf, "w").write("\n".join(c for case in cases for c in [case] * (4 if case.startswith("CPCASE 27 ") else 1)) + "\n")
     of = os.path.join(ctx.work, f"replay-{tag}-out.txt")
     scratch = os.path.join(ctx.work, f"replay-{tag}-scratch")
     shutil.rmtree(scratch, ignore_errors=True)
@@ -214,10 +217,11 @@ def hist(s):
 
 
 ADD_CLASS = {0: "accept", 1: "signature of another key", 2: "undecodable signature", 3: "subscription error (7)", 4: "other API error",
-             5: "non-JSON", 6: "JSON of another shape", 7: "empty body", 8: "1 MB body", 9: "connection reset", 10: "right keys, wrong types"}
+             5: "non-JSON", 6: "JSON of another shape", 7: "empty body", 8: "1 MB body", 9: "connection reset", 10: "right keys, wrong types",
+             11: "accept, reply held", 12: "non-JSON, multi-byte characters, > 256 bytes"}
 REG_CLASS = {0: "good receipt", 1: "signature of another key", 2: "not extending (same expiry)", 3: "non-JSON", 4: "API error",
              5: "not extending (later expiry, no more slots)", 6: "not extending (more slots, same expiry)",
-             7: "valid extending receipt of ANOTHER user"}
+             7: "valid extending receipt of ANOTHER user", 8: "non-JSON, multi-byte characters, > 256 bytes"}
 
 
 def run_property(ctx, pid, targets, rule, assumptions):
@@ -330,7 +334,8 @@ def run_property(ctx, pid, targets, rule, assumptions):
         ctx.add_violation(f"{pid} monitor false on the real plugin: {NAMES.get(m['check'], m['check'])} (step {m['step']}, tower {m['t']}, locator {m['l']})",
                           {"kind": "client_proc", "case": m["case"], "check": m["check"], "step": m["step"], "tower": m["t"], "locator": m["l"],
                            ("database_sample" if m["check"] == 503 else "model_abort_site"): m["site"], "how": "steps are (kind a b): 1 REG t class | 2 MODE t class | 3 UP t 0/1 | 4 REV l | 5 SETTLE | "
-                           "6 SLEEP ms | 7 RETRY t | 8 ABANDON t | 9 KILL | 10 START | 11 REVNOWAIT l ms | 12 WAKE (see harness/src/bin/client_proc/main.rs)"},
+                           "6 SLEEP ms | 7 RETRY t | 8 ABANDON t | 9 KILL (KILL t ms: at the two-record state of a pending -> accepted move of tower t, the sampler pulls the trigger) | 10 START | "
+                           "11 REVNOWAIT l ms | 12 WAKE | 13 WAITSTATUS t status | 14 WAITREQ t l (see harness/src/bin/client_proc/main.rs)"},
                           m["key"])
     return ctx.finish("proof")
 
